@@ -81,6 +81,9 @@ func loadProgram(dirs []string) (*sym.Program, error) {
 }
 
 func main() {
+	if r := os.Getenv("GOSMT_REPO"); r != "" {
+		repoDir = r // seeded-change experiments run against a scratch worktree instead of /repo
+	}
 	if len(os.Args) < 2 {
 		fmt.Fprintln(os.Stderr, "usage: gosmt run|check|replay ...")
 		os.Exit(2)
